@@ -15,6 +15,7 @@ import (
 	"fmt"
 	"io"
 	"math"
+	"math/big"
 	"net"
 	"net/http"
 	"net/netip"
@@ -1288,6 +1289,11 @@ func (r *CallRecord) sealTyped(pkg string) {
 		if ts.resp != nil {
 			ts.RespSum = digest(ts.resp)
 		}
+		if f := r.Call.Fault; f != nil && f.Kind == "mangle" && r.fired.Load() && len(ts.recv) == len(tr.sent) {
+			for _, p := range faithfulReading(f, tr.sent, ts.recv) {
+				add(fmt.Sprintf("request/what the handler holds is not a reading of the text on the wire (delivery %d): %s", i, p))
+			}
+		}
 		var ds []string
 		if len(ts.recv) != len(tr.sent) {
 			ds = append(ds, fmt.Sprintf("%d arguments supplied, %d arrived", len(tr.sent), len(ts.recv)))
@@ -1408,4 +1414,88 @@ func (r *CallRecord) Sides0Op(i int) string {
 		return s.MiddlewareSaw
 	}
 	return ""
+}
+
+// ---------------------------------------------------------------- rewritten pieces: faithful reading
+
+type leafDiff struct {
+	path string
+	a, b *Node
+}
+
+// leafDiffs collects the leaves at which two trees differ (no relaxations: every difference is listed).
+func leafDiffs(path string, a, b *Node, out *[]leafDiff) {
+	if len(*out) > 16 {
+		return
+	}
+	a, b = mergeExtra(a), mergeExtra(b)
+	if a.T == b.T && len(a.C) == len(b.C) && len(a.C) > 0 && !strings.HasPrefix(a.T, "map") {
+		for i := range a.C {
+			name := strconv.Itoa(i)
+			if i < len(a.N) {
+				name = a.N[i]
+			}
+			leafDiffs(path+"."+name, a.C[i], b.C[i], out)
+		}
+		return
+	}
+	if a.String() != b.String() {
+		*out = append(*out, leafDiff{path, a, b})
+	}
+}
+
+var strictInt = regexp.MustCompile(`^[+-]?[0-9]+$`)
+
+// faithfulReading: an intermediary replaced one piece of the request head by a text, and the handler was reached
+// all the same. Every integer and text the handler now holds in place of what was supplied must be a reading of
+// that text: an integer is the text (or one of its delimiter-separated pieces) read as a decimal integer, a text
+// is contained in it. Other kinds of leaves (numbers, booleans, times: parsers with documented leniencies) and
+// pieces that decode to nothing are not judged.
+func faithfulReading(f *Fault, sent, recv []*Node) []string {
+	var text string
+	var err error
+	switch {
+	case strings.HasPrefix(f.Arg, "query"):
+		text, err = url.QueryUnescape(f.Val)
+	case strings.HasPrefix(f.Arg, "path"):
+		text, err = url.PathUnescape(f.Val)
+	case strings.HasPrefix(f.Arg, "header"):
+		text = strings.TrimSpace(f.Val)
+	default:
+		return nil
+	}
+	if err != nil || strings.TrimSpace(text) == "" || len(text) > 200 {
+		return nil
+	}
+	pieces := strings.FieldsFunc(text, func(c rune) bool { return c == ',' || c == '|' || c == ';' || c == ' ' || c == '.' })
+	pieces = append(pieces, text)
+	var ds []leafDiff
+	for k := range sent {
+		leafDiffs(fmt.Sprintf("arg%d", k), sent[k], recv[k], &ds)
+	}
+	var out []string
+	for _, d := range ds {
+		switch d.b.T {
+		case "int":
+			ok := false
+			for _, p := range pieces {
+				if strictInt.MatchString(p) {
+					x, okx := new(big.Int).SetString(strings.TrimPrefix(p, "+"), 10)
+					y, oky := new(big.Int).SetString(d.b.V, 10)
+					if okx && oky && x.Cmp(y) == 0 {
+						ok = true
+					}
+				}
+			}
+			if !ok && d.a.T != "unset" {
+				out = append(out, fmt.Sprintf("%s: %s rewritten to %q arrived as integer %s", d.path, f.Arg, text, d.b.V))
+			}
+		case "str":
+			got, uerr := strconv.Unquote(d.b.V)
+			if uerr == nil && got != "" && !strings.Contains(text, got) && d.a.T != "unset" {
+				out = append(out, fmt.Sprintf("%s: %s rewritten to %q arrived as text %s", d.path, f.Arg, text, d.b.V))
+			}
+		}
+	}
+	return out
 }
